@@ -51,6 +51,11 @@ CLAIMED = {
             "Generated-input search over profiles (structured and noise, 0..300 KiB) and over encodings of each profile; the decoder must return the profile byte for byte and stop at the written bit; inconsistent encodings (by construction, confirmed by a reference interpreter) must be rejected.",
             "Trusted: jxlref::icc (encoder + reference interpreter from the format definition). Ragged 4-way shuffles (n mod 4 in {1,2}) are excluded: the decoder follows the 'balanced rows' reading while libjxl's code uses ceil(n/4)-sized rows; observed, not asserted (DESIGN §7).",
             "DESIGN.md §4 C18"),
+    "C19": ("exploration",
+            "round-trip + metamorphic PBT: generated enum colour encodings -> synthesised ICC -> parse back (equivalence with 1e-4 tolerances); generated samples through public ColorTransform there-and-back (inversion, monotonicity); identity transforms are no-ops",
+            "Generated-input search over enum colour encodings that name a real colour space (constructed, not filtered: custom white points/primaries with stated plausibility rules, gamma 1221..1e7 and non-inverted forms, all intents) and over sample values per transfer function; tolerances calibrated on the unchanged tree and frozen (listed in the evidence).",
+            "Trusted: jxlref::colour_model (f64 reference curves, Bradford adaptation, ICC s15Fixed16 resolution model). Four genuine defects are recorded as known findings (PQ/HLG profiles not recognised, marginal snapping to named chromaticities, large gamma exponents); render-level identity conversion is not yet covered (stated in evidence).",
+            "DESIGN.md §4 C19"),
 }
 
 PENDING_REASON = "not claimed yet: machinery for this property is still being built in this work session (see DESIGN.md §8 build order); the technique applies"
